@@ -107,25 +107,7 @@ def r1_changed_flag(rep, src):
         rep.ok('C11.R1', '%s:%s' % (PM, CLS), 'only __exit__ writes back', 'single caller of _update_field', nontrivial=False)
     else:
         rep.fail('C11.R1', '%s:%s' % (PM, CLS), 'only __exit__ writes back', '_update_field is also called from %s' % [c for c in callers if c != '__exit__'])
-    # value references notify
-    vr = m.funcs.get('ValueReference.value#2') or m.funcs.get('ValueReference.value')
-    setters = [f for q, f in m.funcs.items() if q.startswith('ValueReference.value') and len(f.params()) == 2]
-    if setters and 'self._mutation_notifier()' in norm(setters[0].node) and 'self._resolve_node().value = self._value_factory(' in norm(setters[0].node):
-        rep.ok('C11.R1', setters[0].site, 'reference assignment notifies the view', 'node.value = factory(new); mutation_notifier()')
-    else:
-        rep.fail('C11.R1', PM + ':ValueReference.value', 'reference assignment notifies the view', 'assigning through a value reference does not mark the view as changed')
-    rm = m.funcs.get('ValueReference.remove')
-    if rm is not None and 'self._removal_handler(' in norm(rm.node) and 'self._node = None' in norm(rm.node):
-        rep.ok('C11.R1', rm.site, 'reference removal goes through the view', 'removal_handler(node); reference invalidated', nontrivial=False)
-    else:
-        rep.fail('C11.R1', PM + ':ValueReference.remove', 'reference removal goes through the view', 'remove() does not use the view\'s removal handler')
-    ivr = meths['iter_value_references']
-    t = norm(ivr.node).replace('\n', ' ')
-    if 'self._remove_node' in t and 'self._mark_changed' in t and 'self._value_factory' in t:
-        rep.ok('C11.R1', ivr.site, 'references are wired to _remove_node / _mark_changed', 'ok', nontrivial=False)
-    else:
-        rep.fail('C11.R1', ivr.site, 'references are wired to _remove_node / _mark_changed', 'value references are created without the view\'s handlers', where=ivr.where)
-    _ = vr
+    # value references (assignment / removal mark the view as changed): interpreted in C11.R5
 
 
 # ---- R5 edits at value level (heap interpretation) -------------------------------------------------
@@ -579,23 +561,60 @@ def r2_r3_tokenizers(rep, src):
                  ('the line %r is %s a comment by the list tokenizer but %s by the document parser: a value on that line disappears from the list view (and an edit '
                   'may delete it)' % (w[1], 'treated as' if w[0] == 'left-only' else 'not treated as', 'not' if w[0] == 'left-only' else 'is')) if w else
                  'the comment line is not emitted whole as a comment token', detail={'witness': w[1] if w else None}, where=vt.where)
-    t = norm(inner[0])
-    need = ['continuation_line_marker = %s[0]' % lv, '%s = %s[1:]' % (lv, lv), "if %s.endswith('\\n'):" % lv, '%s = %s[:-1]' % (lv, lv),
-            'yield Deb822ValueContinuationToken(sys.intern(continuation_line_marker))', 'yield from func(%s)' % lv, 'yield Deb822NewlineAfterValueToken()',
-            'for %s in v.splitlines(keepends=True):' % lv]
-    missing = [x for x in need if x not in t]
-    order_ok = not missing and t.index(need[4]) < t.index(need[5]) < t.index(need[6])
-    if order_ok:
-        rep.ok('C11.R3', vt.site, 'value line = continuation marker + content + newline', 'line[0] / line[1:] / line[:-1] emitted in this order')
-    else:
-        rep.fail('C11.R3', vt.site, 'value line = continuation marker + content + newline', 'the value line is not split into marker, content and newline without loss (%s)'
-                 % (missing[:2] or 'order'), where=vt.where)
+    # the wrapper interpreted on a symbolic multi-line value: first line, continuation line, comment line, continuation
+    # line without final newline; the wrapped tokenizer is a stub that returns one opaque token per call
+    from .. import symstr
+    from ..symstr import SStr
+    word = r'[^\s#][^\n\r\x0b\x0c\x1c\x1d\x1e\x85\u2028\u2029]*'
+    A1, A2, A3, CM = symstr.atom('first', word), symstr.atom('second', word), symstr.atom('third', word), symstr.atom('comment', r'[^\n\r\x0b\x0c\x1c\x1d\x1e\x85\u2028\u2029]*')
+    value = A1 + '\n ' + A2 + '\n#' + CM + '\n\t' + A3
+    got_tokens = []
+
+    def tok(kind):
+        def mk(it, args, kw):
+            return (kind, args[0] if args else None)
+        return mk
+    hp = H.Heap(src.mod(TK), hooks={'Deb822CommentToken': tok('comment'), 'Deb822ValueContinuationToken': tok('cont'), 'Deb822NewlineAfterValueToken': tok('newline'),
+                                    'sys.intern': lambda it, a, k: a[0], 'FUNC': lambda it, a, k: [('content', a[0])]})
+    hp.symbolic_strings = True
+    itp = H.Interp(hp)
+    try:
+        res = itp.call(H.Closure(inner[0], {'func': ('hook', 'FUNC')}, None, None), [value])
+        for x in itp.seq(res):
+            got_tokens.append((x[0], x[1] if not isinstance(x[1], SStr) else (x[1].concrete() if x[1].concrete() is not None else repr(x[1]))))
+        want_tokens = [('content', repr(A1)), ('newline', None), ('cont', ' '), ('content', repr(A2)), ('newline', None), ('comment', repr(SStr(['#']) + CM + '\n')),
+                       ('cont', '\t'), ('content', repr(A3))]
+        if got_tokens == want_tokens:
+            rep.ok('C11.R3', vt.site, 'value line = continuation marker + content + newline', '8 tokens for "first / second / #comment / third": every character is emitted once, in order')
+        else:
+            rep.fail('C11.R3', vt.site, 'value line = continuation marker + content + newline',
+                     'the value "first\\n second\\n#comment\\n\\tthird" is tokenised as %r; specified: %r (marker, content, newline without loss)' % (got_tokens, want_tokens), where=vt.where)
+    except H.Raised as x:
+        rep.fail('C11.R3', vt.site, 'value line = continuation marker + content + newline', 'raises %s (line %d) on a well-formed multi-line value' % (x.exc, x.lineno), where=vt.where)
     # R2: both pipelines pass the length check
     ps = src.func(PM + ':GenericContentBasedInterpretation._parse_str')
     rep.saw_func(ps)
-    t = norm(ps.node).replace('\n', ' ')
-    if t.count('len_check_iterator(') == 2 and 'self._tokenizer(content)' in t and 'self._parse_stream(biter)' in t:
-        rep.ok('C11.R2', ps.site, 'tokenizer and parser output are length-checked', 'len_check_iterator around both stages')
+    from .. import paths as P1
+    pps = P1.function_paths(ps.node)
+    okp = bool(pps)
+    for p_ in pps:
+        ys = [e[1].value.value for e in p_.events if e[0] == 'effect' and isinstance(e[1], ast.Expr) and isinstance(e[1].value, (ast.Yield, ast.YieldFrom))]
+        rets = [p_.outcome[1]] if p_.outcome[0] == 'return' and p_.outcome[1] is not None else []
+        exprs = ys + rets
+
+        def checked(e, inner_call):
+            """e is len_check_iterator(content, X ...) with the call `inner_call` somewhere inside X"""
+            return isinstance(e, ast.Call) and norm(e.func).endswith('len_check_iterator') and len(e.args) >= 2 and norm(e.args[0]) == ps.params()[1] \
+                and any(isinstance(c, ast.Call) and norm(c.func) == inner_call for c in ast.walk(e.args[1]))
+        good = False
+        for e in exprs:
+            if checked(e, 'self._parse_stream'):
+                inner_checks = [c for c in ast.walk(e.args[1]) if checked(c, 'self._tokenizer')]
+                if inner_checks:
+                    good = True
+        okp = okp and good
+    if okp:
+        rep.ok('C11.R2', ps.site, 'tokenizer and parser output are length-checked', 'len_check_iterator(content, parse_stream(... len_check_iterator(content, tokenizer(content)) ...))')
     else:
         rep.fail('C11.R2', ps.site, 'tokenizer and parser output are length-checked', 'a stage of the list pipeline is no longer guarded by len_check_iterator', where=ps.where)
     lc = src.func('_deb822_repro._util:len_check_iterator')
@@ -609,48 +628,83 @@ def r2_r3_tokenizers(rep, src):
 # ---- R4 write-back -------------------------------------------------------------------------------
 
 def r4_writeback(rep, src):
+    """_update_field interpreted on view stubs: the field text is re-parsed and only the value element of a syntactically
+    valid result replaces the old one; a view without content, ending on a comment, or producing a syntax error raises
+    ValueError with the old value element still in place; a missing final newline is supplied before the re-parse"""
     f = src.func('%s:%s._update_field' % (PM, CLS))
     rep.saw_func(f)
-    g = cfg.CFG(f.node)
-    commits = [n for n in g.stmts() if n.kind == 'stmt' and isinstance(n.ast, ast.Assign) and norm(n.ast.targets[0]) == 'kvpair_element.value_element']
-    if len(commits) != 1:
-        raise AnalysisError('%s: commit assignment not found' % f.site)
-    cm = commits[0]
-    checks = {
-        'field has content': lambda n: n.kind == 'raise' and 'must have content' in norm(n.ast),
-        'field does not end on a comment': lambda n: n.kind == 'raise' and 'must not end on a comment' in norm(n.ast),
-        'syntax errors are rejected': lambda n: n.kind == 'raise' and 'Syntax error' in norm(n.ast),
-    }
-    for what, pred in checks.items():
-        rs = [n for n in g.nodes if n.ast is not None and pred(n)]
-        ok = False
-        for r_ in rs:
-            # the guarding decision dominates the commit
-            guards = [p for p, lab in g.pred[r_.id]]
-            while guards and g.nodes[guards[0]].kind not in ('test', 'fortest'):
-                guards = [p for p, lab in g.pred[guards[0]]]
-            if guards and g.dominates(guards[0], cm.id):
-                ok = True
-        if ok:
-            rep.ok('C11.R4', f.site, what, 'checked (ValueError) before the new value element is stored')
+    mod = src.mod(PM)
+    scen = [
+        # name, tokens (kind, text), parser reports an error, expected: ('ok' | 'ValueError'), newline must be appended
+        ('a value that ends with a newline', [('V', 'a'), ('N', '\n')], False, 'ok', False),
+        ('a value without final newline', [('V', 'a')], False, 'ok', True),
+        ('only blanks and comments', [('W', ' '), ('C', '# c\n')], False, 'ValueError', None),
+        ('a comment as last token', [('V', 'a'), ('N', '\n'), ('C', '# c\n')], False, 'ValueError', None),
+        ('text the parser rejects', [('V', 'a'), ('N', '\n')], True, 'ValueError', False),
+    ]
+    for name, toks, perr, want, want_nl in scen:
+        log = []
+
+        def parse(it, args, kw, log=log, perr=perr):
+            lines = it.seq(args[0])
+            log.append(('parse', ''.join(str(x) for x in lines)))
+            return it.h.alloc('Deb822FileElement', {'err': perr}, name='@reparsed')
+        heap = H.Heap(mod, field_alias={'_previous_node': 'previous_node'}, extra_modules=[src.mod('_util'), src.mod(TK)], hooks={
+            'parse_deb822_file': parse,
+            '.find_first_error_element': lambda it, a, k: it.h.alloc('Deb822ErrorElement', {}, name='@error') if it.h.objs[a[0].name]['err'] else None,
+            '.get_kvpair_element': lambda it, a, k: it.h.newkv,
+            '.append_newline': lambda it, a, k, log=log: log.append(('append_newline',)),
+            '._generate_field_content': lambda it, a, k: ''.join(t for _k, t in it.h.toks) + ('\n' if any(e == ('append_newline',) for e in log) else ''),
+            '._generate_reformatted_field_content': lambda it, a, k: 'F:' + ''.join(t for _k, t in it.h.toks),
+            '._iter_content_as_tokens': lambda it, a, k: list(it.h.tokrefs),
+            '.convert_to_text': lambda it, a, k: it.h.objs[a[0].name]['text'],
+        })
+        heap.symbolic_strings = True
+        heap.toks = toks
+        heap.tokrefs = [heap.alloc(KINDS[k_] if k_ != 'V' else 'Deb822ValueToken', {'text': t_, 'is_comment': k_ == 'C', 'is_whitespace': k_ in 'WN'}) for k_, t_ in toks]
+        lst, nodes = H.build_list(heap, heap.tokrefs)
+        old = heap.alloc('Deb822ValueElement', {}, name='@old_value')
+        kv = heap.alloc('Deb822KeyValuePairElement', {'field_name': 'F', 'value_element': old}, name='@field')
+        newv = heap.alloc('Deb822ValueElement', {}, name='@new_value')
+        heap.newkv = heap.alloc('Deb822KeyValuePairElement', {'field_name': 'F', 'value_element': newv}, name='@new_field')
+        para = heap.alloc('Deb822NoDuplicateFieldsParagraphElement', {}, name='@reparsed_paragraph')
+        heap.hooks['.__iter__'] = None
+        del heap.hooks['.__iter__']
+        heap.hooks['next'] = lambda it, a, k: para
+        heap.hooks['iter'] = lambda it, a, k: a[0]
+        view = heap.alloc(CLS, {'_kvpair_element': kv, '_token_list': lst, '_changed': True, '_format_preserve_original_formatting': True}, name='@view')
+        what = 'write-back of %s' % name
+        try:
+            H.Interp(heap).call(H.Closure(f.node, {}, view, f.cls), [])
+            exc = None
+        except H.Raised as x:
+            exc = x.exc
+        cur = heap.objs[kv.name]['value_element']
+        parses = [e for e in log if e[0] == 'parse']
+        if want == 'ValueError':
+            if exc == 'ValueError' and cur == old:
+                rep.ok('C11.R4', f.site, what, 'ValueError, the old value element stays')
+            else:
+                rep.fail('C11.R4', f.site, what, 'the edited field must be refused with ValueError and the old value element kept; got %s, value element %s'
+                         % (exc or 'no error', cur), where=f.where)
+            continue
+        problems = []
+        if exc is not None:
+            problems.append('raises %s' % exc)
+        if cur != newv:
+            problems.append('the value element of the re-parsed field is not stored (it is %s)' % cur)
+        if len(parses) != 1:
+            problems.append('the text is re-parsed %d times' % len(parses))
+        elif parses[0][1] != 'F:' + ''.join(t_ for _k, t_ in toks) + ('\n' if want_nl else ''):
+            problems.append('the text handed to the parser is %r, not the field name, ":" and the token texts verbatim%s' % (parses[0][1], ' with the supplied final newline' if want_nl else ''))
+        if want_nl and (('append_newline',) not in log or log.index(('append_newline',)) > log.index(parses[0]) if parses else True):
+            problems.append('a value without final newline is not terminated before the re-parse')
+        if heap.objs[view.name]['_changed'] is not False:
+            problems.append('the changed flag is not reset')
+        if problems:
+            rep.fail('C11.R4', f.site, what, '; '.join(problems), where=f.where)
         else:
-            rep.fail('C11.R4', f.site, what, 'the edited field can be written back without this check: the document may become syntactically invalid', where=f.where)
-    nl = [n for n in g.nodes if n.kind == 'test' and "endswith('\\n')" in norm(n.ast)]
-    ap = [n for n in g.stmts() if n.kind == 'stmt' and norm(n.ast) == 'self.append_newline()']
-    if nl and ap and g.dominates(nl[0].id, cm.id):
-        rep.ok('C11.R4', f.site, 'value ends with a newline', 'append_newline() when missing, before the re-parse')
-    else:
-        rep.fail('C11.R4', f.site, 'value ends with a newline', 'the written field is not terminated: the next field continues its last line', where=f.where)
-    rp = [n for n in g.stmts() if n.kind == 'stmt' and 'parse_deb822_file(' in norm(n.ast)]
-    if rp and g.dominates(rp[0].id, cm.id) and 'self._changed = False' in norm(f.node):
-        rep.ok('C11.R4', f.site, 're-parse precedes the store; flag reset', 'ok', nontrivial=False)
-    else:
-        rep.fail('C11.R4', f.site, 're-parse precedes the store; flag reset', 'the new value element is not obtained by re-parsing the edited text', where=f.where)
-    t = norm(f.node)
-    if "text = ':'.join((field_name, value_text))" in t and 'value_text = self._generate_field_content()' in t:
-        rep.ok('C11.R4', f.site, 'unformatted write-back uses the token texts verbatim', "field_name + ':' + ''.join(token texts)", nontrivial=False)
-    else:
-        rep.fail('C11.R4', f.site, 'unformatted write-back uses the token texts verbatim', 'the preserved-format write-back does not concatenate the token texts', where=f.where)
+            rep.ok('C11.R4', f.site, what, 're-parsed %r, new value element stored, flag reset' % parses[0][1])
 
 
 def const_token_texts(src):
